@@ -578,6 +578,16 @@ func structBehind(t types.Type) (*types.Named, *types.Struct, bool) {
 // selection's index path (promoted fields of embedded structs).
 func (x *Exec) selectFrom(st *State, fr *Frame, e *ast.SelectorExpr, b Term) Term {
 	sel := x.info.Selections[e]
+	if sel != nil && e.Sel.Name == "C" {
+		// timer.C: the channel of a *time.Timer is identified with the timer itself
+		if p, ok := types.Unalias(sel.Recv()).(*types.Pointer); ok {
+			if n := namedOf(p.Elem()); n != nil && qualName(n) == "time.Timer" {
+				r := b
+				r.Ty = sel.Type()
+				return r
+			}
+		}
+	}
 	cur := b
 	curT := sel.Recv()
 	if b.Ty != nil {
